@@ -354,8 +354,9 @@ impl ChunkDeserializer {
             self.current_header.timestamp.set(timestamp);
         } else if self.is_first_chunk_of_message() {
             // Since we already added the MAX_INITIAL_TIMESTAMP to the timestamp, only add the delta difference
+            // (a peer may send an extended value below MAX_INITIAL_TIMESTAMP, so this has to wrap)
             self.current_header.timestamp =
-                self.current_header.timestamp + (timestamp - MAX_INITIAL_TIMESTAMP);
+                self.current_header.timestamp + timestamp - MAX_INITIAL_TIMESTAMP;
         }
 
         self.current_stage = ParseStage::MessagePayload;
